@@ -848,15 +848,28 @@ fn c07_scorer(ctx: &mut Ctx, rng: &mut Rng, tiny: bool) {
                 }
             }
         }
-        for _ in 0..400 {
-            let mut s: Vec<(u32, u32)> = vec![];
-            while s.len() < 4 {
-                let c = cells[rng.below(n)];
-                if !s.contains(&c) {
-                    s.push(c);
+        if ctx.thorough() {
+            // thorough: every key set of size 4 as well (12 650 sets)
+            for i in 0..n {
+                for j in i + 1..n {
+                    for k in j + 1..n {
+                        for l in k + 1..n {
+                            push(vec![cells[i], cells[j], cells[k], cells[l]], &mut idx);
+                        }
+                    }
                 }
             }
-            push(s, &mut idx);
+        } else {
+            for _ in 0..400 {
+                let mut s: Vec<(u32, u32)> = vec![];
+                while s.len() < 4 {
+                    let c = cells[rng.below(n)];
+                    if !s.contains(&c) {
+                        s.push(c);
+                    }
+                }
+                push(s, &mut idx);
+            }
         }
         ctx.bucket("scorer_small_scope_enumerated");
     } else {
